@@ -71,7 +71,9 @@ class Lock:
         return self
 
     async def __aexit__(self, exc_type, exc_val, exc_tb):
-        assert exc_type is GeneratorExit or self._owner == __USIM_STATE__.loop.activity
+        # only on a regular exit it is certain that the owner itself is at work: an owner
+        # that is being closed may leave with any exception that its clean-up raises
+        assert exc_type is not None or self._owner == __USIM_STATE__.loop.activity
         self._depth -= 1
         if self._depth == 0:
             self.__release__()
